@@ -98,18 +98,22 @@ def rule_perturbations(ctx: Ctx):
         why = ""
         if isinstance(seg, ast.Call) and dotted(seg.func) == "Segment":
             try:
-                smx = assigned_value(f.node, "shift_max")
-                z = _at_zero(smx[0], mag_of(f), {}) if len(smx) == 1 else None
                 defs_s = [s.value for s in ast.walk(I) if isinstance(s, ast.Assign) and norm(s.targets[0]) == norm(seg.args[0]) and isinstance(s.value, ast.BinOp)]
                 defs_e = [s.value for s in ast.walk(I) if isinstance(s, ast.Assign) and norm(s.targets[0]) == norm(seg.args[1]) and isinstance(s.value, ast.BinOp)]
+                # amplitude = the function-level local (defined before the loops) that both shifted ends multiply
+                outer_locals = {norm(s.targets[0]): s.value for s in f.node.body if isinstance(s, ast.Assign) and isinstance(s.targets[0], ast.Name)}
+                used = [n_ for n_ in outer_locals if defs_s and defs_e and n_ in {x.id for x in ast.walk(defs_s[0]) if isinstance(x, ast.Name)}
+                        and n_ in {x.id for x in ast.walk(defs_e[0]) if isinstance(x, ast.Name)}]
+                amp = used[0] if len(used) == 1 else None
+                z = _at_zero(outer_locals[amp], mag_of(f), {}) if amp else None
                 if z is not None and z.is_zero() and len(defs_s) == 1 and len(defs_e) == 1:
-                    env = {"shift_max": Rat.const(0)}
+                    env = {amp: Rat.const(0)}
                     vs = _at_zero(defs_s[0], mag_of(f), env)
                     ve = _at_zero(defs_e[0], mag_of(f), env)
                     okz = vs == Rat.var(f"{u}.segment.start") and ve == Rat.var(f"{u}.segment.end")
                     why = f"start -> {vs}, end -> {ve}"
                 else:
-                    why = f"shift_max at magnitude 0 = {z}"
+                    why = f"shift amplitude at magnitude 0 = {z}"
             except Unsupported as e:
                 why = str(e)
         ctx.check(okz, "R-C19-3", f, seg, "magnitude 0: shift amplitude vanishes, the unit is re-added with its own start and end",
@@ -160,13 +164,20 @@ def rule_perturbations(ctx: Ctx):
         ctx.check(okz, "R-C19-3", f, cnt, "magnitude 0: no false positive is added (count expression vanishes)", bad_detail="the number of false positives does not vanish at magnitude 0", key="fpos-zero")
         cat = kwarg(ad[0], "annotation") or (ad[0].args[2] if len(ad[0].args) > 2 else None)
         cdef = resolve_local(f.node, cat) if cat is not None else None
-        okc = isinstance(cdef, ast.Call) and norm(cdef.func) == "np.random.choice" and norm(cdef.args[0]) == "category_weights.keys()" and \
-            kwarg(cdef, "p") is not None and norm(kwarg(cdef, "p")) == "category_weights.values()" and \
-            any(norm(v) == f"{f.self_name}._reference_continuum.category_weights" for v in assigned_value(f.node, "category_weights"))
+        okc = False
+        if isinstance(cdef, ast.Call) and norm(cdef.func) == "np.random.choice" and cdef.args and norm(cdef.args[0]).endswith(".keys()") and kwarg(cdef, "p") is not None:
+            W = norm(cdef.args[0])[:-len(".keys()")]
+            okc = norm(kwarg(cdef, "p")) == f"{W}.values()" and \
+                any(norm(v) == f"{f.self_name}._reference_continuum.category_weights" for v in assigned_value(f.node, W))
         ctx.check(okc, "R-C19-2", f, cdef, "added units take a category of the reference, drawn with the reference's category frequencies", key="fpos-category")
         seg = ad[0].args[1]
-        oks = isinstance(seg, ast.Call) and dotted(seg.func) == "Segment" and norm(seg.args[0]) == "center - duration / 2" and norm(seg.args[1]) == "center + duration / 2" and \
-            any(norm(v).startswith("abs(") for v in assigned_value(f.node, "duration"))
+        oks = False
+        if isinstance(seg, ast.Call) and dotted(seg.func) == "Segment" and len(seg.args) == 2 and all(isinstance(a_, ast.BinOp) for a_ in seg.args):
+            lo_, hi_ = seg.args
+            if isinstance(lo_.op, ast.Sub) and isinstance(hi_.op, ast.Add) and norm(lo_.left) == norm(hi_.left) and norm(lo_.right) == norm(hi_.right) and \
+                    isinstance(lo_.right, ast.BinOp) and isinstance(lo_.right.op, ast.Div) and norm(lo_.right.right) == "2":
+                D_ = norm(lo_.right.left)
+                oks = any(norm(v).startswith("abs(") for v in assigned_value(f.node, D_))
         ctx.check(oks, "R-C19-2", f, seg, "added segments are [center - d/2, center + d/2] with d = |N(.)| >= 0", key="fpos-segment")
     # ---------------- category
     f = ctx.fn(f"{CLS}.category_shuffle", "R-C19-2")
@@ -183,18 +194,27 @@ def rule_perturbations(ctx: Ctx):
                   bad_detail="category shuffling does not keep each unit's segment", key="cat-segments")
         newc = resolve_local(I, ad[0].args[2]) if ad else None
         nd = [s.value for s in ast.walk(I) if isinstance(s, ast.Assign) and ad and norm(s.targets[0]) == norm(ad[0].args[2])]
-        okd = len(nd) == 1 and isinstance(nd[0], ast.Call) and norm(nd[0].func) == "np.random.choice" and norm(nd[0].args[0]) == "categories" and \
-            kwarg(nd[0], "p") is not None and norm(kwarg(nd[0], "p")) == f"prob_matrix[category_weights.index({u}.annotation)]" and \
-            any(norm(v) == "list(category_weights.keys())" for v in assigned_value(f.node, "categories"))
+        okd = False
+        PM = None
+        if len(nd) == 1 and isinstance(nd[0], ast.Call) and norm(nd[0].func) == "np.random.choice" and nd[0].args and isinstance(nd[0].args[0], ast.Name) \
+                and isinstance(kwarg(nd[0], "p"), ast.Subscript):
+            CATS = nd[0].args[0].id
+            pk = kwarg(nd[0], "p")
+            PM = norm(pk.value)
+            idx = pk.slice
+            if isinstance(idx, ast.Call) and isinstance(idx.func, ast.Attribute) and idx.func.attr == "index" and [norm(a_) for a_ in idx.args] == [f"{u}.annotation"]:
+                W = norm(idx.func.value)
+                okd = any(norm(v) == f"list({W}.keys())" for v in assigned_value(f.node, CATS)) and \
+                    any(norm(v) == f"{f.self_name}._reference_continuum.category_weights" for v in assigned_value(f.node, W))
         ctx.check(okd, "R-C19-2", f, nd[0] if nd else None, "the new category is one of the reference's categories, drawn from the row of the unit's current category", key="cat-draw")
         # identity at magnitude 0 for every formula of the transition matrix
-        forms = [s for s in walk_no_nested(f.node) if isinstance(s, ast.Assign) and norm(s.targets[0]) == "prob_matrix" and isinstance(s.value, ast.BinOp)]
-        eye = [s for s in walk_no_nested(f.node) if isinstance(s, ast.Assign) and norm(s.targets[0]) == "prob_matrix" and norm(s.value).startswith("np.eye(")]
+        forms = [s for s in walk_no_nested(f.node) if isinstance(s, ast.Assign) and PM and norm(s.targets[0]) == PM and isinstance(s.value, ast.BinOp)]
+        eye = [s for s in walk_no_nested(f.node) if isinstance(s, ast.Assign) and PM and norm(s.targets[0]) == PM and norm(s.value).startswith("np.eye(")]
         okI = bool(forms) and len(eye) == 1
         for s in forms:
             try:
                 v = _at_zero(s.value, mag_of(f), {})
-                if not (v == Rat.var("prob_matrix")):
+                if not (v == Rat.var(PM)):
                     okI = False
             except Unsupported:
                 okI = False
